@@ -88,17 +88,36 @@ fn stmt_uses_json_stringify(stmt: &Statement) -> bool {
         Statement::Expr(expr) => expr_uses_json_stringify(&expr.node),
         Statement::Assignment(assign) => expr_uses_json_stringify(&assign.value.node),
         Statement::CompoundAssignment(assign) => expr_uses_json_stringify(&assign.value.node),
-        Statement::FieldAssignment(assign) => expr_uses_json_stringify(&assign.value.node),
-        Statement::IndexAssignment(assign) => expr_uses_json_stringify(&assign.value.node),
+        Statement::FieldAssignment(assign) => {
+            expr_uses_json_stringify(&assign.object.node) || expr_uses_json_stringify(&assign.value.node)
+        }
+        Statement::IndexAssignment(assign) => {
+            expr_uses_json_stringify(&assign.object.node)
+                || expr_uses_json_stringify(&assign.index.node)
+                || expr_uses_json_stringify(&assign.value.node)
+        }
         Statement::TupleUnpack(unpack) => expr_uses_json_stringify(&unpack.value.node),
-        Statement::TupleAssign(assign) => expr_uses_json_stringify(&assign.value.node),
+        Statement::TupleAssign(assign) => {
+            assign.targets.iter().any(|t| expr_uses_json_stringify(&t.node))
+                || expr_uses_json_stringify(&assign.value.node)
+        }
+        Statement::ChainedAssignment(assign) => expr_uses_json_stringify(&assign.value.node),
         Statement::Return(Some(expr)) => expr_uses_json_stringify(&expr.node),
         Statement::If(if_stmt) => {
-            body_uses_json_stringify(&if_stmt.then_body)
+            expr_uses_json_stringify(&if_stmt.condition.node)
+                || body_uses_json_stringify(&if_stmt.then_body)
+                || if_stmt
+                    .elif_branches
+                    .iter()
+                    .any(|(cond, body)| expr_uses_json_stringify(&cond.node) || body_uses_json_stringify(body))
                 || if_stmt.else_body.as_ref().is_some_and(|b| body_uses_json_stringify(b))
         }
-        Statement::While(while_stmt) => body_uses_json_stringify(&while_stmt.body),
-        Statement::For(for_stmt) => body_uses_json_stringify(&for_stmt.body),
+        Statement::While(while_stmt) => {
+            expr_uses_json_stringify(&while_stmt.condition.node) || body_uses_json_stringify(&while_stmt.body)
+        }
+        Statement::For(for_stmt) => {
+            expr_uses_json_stringify(&for_stmt.iter.node) || body_uses_json_stringify(&for_stmt.body)
+        }
         _ => false,
     }
 }
@@ -125,7 +144,8 @@ fn expr_uses_json_stringify(expr: &Expr) -> bool {
             .iter()
             .any(|(k, v)| expr_uses_json_stringify(&k.node) || expr_uses_json_stringify(&v.node)),
         Expr::If(if_expr) => {
-            body_uses_json_stringify(&if_expr.then_body)
+            expr_uses_json_stringify(&if_expr.condition.node)
+                || body_uses_json_stringify(&if_expr.then_body)
                 || if_expr.else_body.as_ref().is_some_and(|b| body_uses_json_stringify(b))
         }
         Expr::Match(scrutinee, arms) => {
@@ -235,14 +255,27 @@ fn stmt_uses_async(stmt: &Statement) -> bool {
         Statement::Expr(expr) => expr_uses_async(&expr.node),
         Statement::Assignment(assign) => expr_uses_async(&assign.value.node),
         Statement::CompoundAssignment(assign) => expr_uses_async(&assign.value.node),
-        Statement::FieldAssignment(assign) => expr_uses_async(&assign.value.node),
-        Statement::IndexAssignment(assign) => expr_uses_async(&assign.value.node),
+        Statement::FieldAssignment(assign) => {
+            expr_uses_async(&assign.object.node) || expr_uses_async(&assign.value.node)
+        }
+        Statement::IndexAssignment(assign) => {
+            expr_uses_async(&assign.object.node)
+                || expr_uses_async(&assign.index.node)
+                || expr_uses_async(&assign.value.node)
+        }
         Statement::TupleUnpack(unpack) => expr_uses_async(&unpack.value.node),
-        Statement::TupleAssign(assign) => expr_uses_async(&assign.value.node),
+        Statement::TupleAssign(assign) => {
+            assign.targets.iter().any(|t| expr_uses_async(&t.node)) || expr_uses_async(&assign.value.node)
+        }
+        Statement::ChainedAssignment(assign) => expr_uses_async(&assign.value.node),
         Statement::Return(Some(expr)) => expr_uses_async(&expr.node),
         Statement::If(if_stmt) => {
             expr_uses_async(&if_stmt.condition.node)
                 || body_uses_async(&if_stmt.then_body)
+                || if_stmt
+                    .elif_branches
+                    .iter()
+                    .any(|(cond, body)| expr_uses_async(&cond.node) || body_uses_async(body))
                 || if_stmt.else_body.as_ref().is_some_and(|b| body_uses_async(b))
         }
         Statement::While(while_stmt) => {
@@ -287,14 +320,23 @@ fn expr_uses_async(expr: &Expr) -> bool {
         Expr::MethodCall(receiver, _, args) => expr_uses_async(&receiver.node) || args.iter().any(call_arg_uses_async),
         Expr::Field(base, _) => expr_uses_async(&base.node),
         Expr::Index(base, index) => expr_uses_async(&base.node) || expr_uses_async(&index.node),
-        Expr::Slice(base, _) => expr_uses_async(&base.node),
+        Expr::Slice(base, slice) => {
+            expr_uses_async(&base.node)
+                || slice.start.as_ref().is_some_and(|e| expr_uses_async(&e.node))
+                || slice.end.as_ref().is_some_and(|e| expr_uses_async(&e.node))
+                || slice.step.as_ref().is_some_and(|e| expr_uses_async(&e.node))
+        }
         Expr::If(if_expr) => {
             expr_uses_async(&if_expr.condition.node)
                 || body_uses_async(&if_expr.then_body)
                 || if_expr.else_body.as_ref().is_some_and(|b| body_uses_async(b))
         }
         Expr::Match(expr, arms) => {
-            expr_uses_async(&expr.node) || arms.iter().any(|arm| match_body_uses_async(&arm.node.body))
+            expr_uses_async(&expr.node)
+                || arms.iter().any(|arm| {
+                    arm.node.guard.as_ref().is_some_and(|g| expr_uses_async(&g.node))
+                        || match_body_uses_async(&arm.node.body)
+                })
         }
         Expr::Closure(_, body) => expr_uses_async(&body.node),
         Expr::List(items) | Expr::Tuple(items) | Expr::Set(items) => {
@@ -320,6 +362,8 @@ fn expr_uses_async(expr: &Expr) -> bool {
         Expr::Constructor(_, args) => args.iter().any(call_arg_uses_async),
         Expr::Try(inner) => expr_uses_async(&inner.node),
         Expr::Paren(inner) => expr_uses_async(&inner.node),
+        Expr::Range { start, end, .. } => expr_uses_async(&start.node) || expr_uses_async(&end.node),
+        Expr::Yield(Some(inner)) => expr_uses_async(&inner.node),
         _ => false,
     }
 }
